@@ -1100,6 +1100,20 @@ func (f *Frame) concat(a, b Term) Term {
 	t := e.define("cat", sConcat(a, b))
 	if t.S != a.S {
 		e.assume(eq(sLen(t), add(sLen(a), sLen(b))), t.S)
+		// bytes of a concatenation: the left part, then the right part
+		e.assume(Term{fmt.Sprintf("(forall ((i Int)) (! (=> (and (<= 0 i) (< i (slen %s))) (= (sbyte %s i) (sbyte %s i))) :pattern ((sbyte %s i))))", a.S, t.S, a.S, t.S), SBool}, t.S)
+		isLit := false
+		for s, n := range e.U.strLits {
+			if n == b.S && len(s) <= 8 {
+				isLit = true
+				for k := 0; k < len(s); k++ {
+					e.assume(eq(sByte(t, add(sLen(a), intLit(int64(k)))), intLit(int64(s[k]))), t.S)
+				}
+			}
+		}
+		if !isLit {
+			e.assume(Term{fmt.Sprintf("(forall ((i Int)) (! (=> (and (<= 0 i) (< i (slen %s))) (= (sbyte %s (+ (slen %s) i)) (sbyte %s i))) :pattern ((sbyte %s (+ (slen %s) i)))))", b.S, t.S, a.S, b.S, t.S, a.S), SBool}, t.S)
+		}
 	}
 	return t
 }
